@@ -453,6 +453,17 @@ func runC19(w *World, st *Stats, r *Rng, k, dk Kind, R, W, iters, procs int, car
 		s := roFrames + i*perWriter
 		wviews[i] = w.Slice(base, s, s+perWriter)
 	}
+	// a second shared buffer that has just been moved by a growing Append and that nothing has sliced yet:
+	// whatever Append leaves to be done "on first use" would be done by the readers at once
+	grown := Alloc(k, false, signal.Allocator{Channels: ch, Length: 1, Capacity: 1})
+	{
+		more := Alloc(k, false, signal.Allocator{Channels: ch, Length: 2 + r.Intn(3), Capacity: 5})
+		for i := 0; i < more.Len(); i++ {
+			more.SetSample(i, patt(k, i))
+		}
+		grown.Append(more)
+	}
+	grownLen, grownCap, grown0 := grown.Length(), grown.Capacity(), grown.Sample(0)
 	recs := make([][]recOp, W)
 	seeds := make([]uint64, R+W)
 	for i := range seeds {
@@ -490,6 +501,14 @@ func runC19(w *World, st *Stats, r *Rng, k, dk Kind, R, W, iters, procs int, car
 				s := ro.Slice(lr.Intn(roFrames), roFrames)
 				if s.Capacity() > K {
 					bad = true
+				}
+				// the buffer that was grown by Append and never sliced before the goroutines started
+				{
+					e := 1 + lr.Intn(grownCap)
+					g2 := grown.Slice(0, e)
+					if g2.Length() != e || grown.Length() != grownLen || grown.Capacity() != grownCap || grown.Sample(0) != grown0 {
+						bad = true
+					}
 				}
 				// windows that reach into the spare capacity of the shared buffer (still only headers)
 				if spare := ro.Capacity() - roFrames; spare > 0 {
